@@ -30,14 +30,14 @@ def c11_1(ctx):
     a = it.get("pycoin.encoding.b58", "BASE58_ALPHABET")
     ctx.check(a == b"123456789ABCDEFGHJKLMNPQRSTUVWXYZabcdefghijkmnopqrstuvwxyz", "base58-alphabet", B58 + ":1", "BASE58_ALPHABET is %r" % (a,), sample={"alphabet": a.decode() if isinstance(a, bytes) else None})
     lk = it.get("pycoin.encoding.b58", "BASE58_LOOKUP")
-    ctx.check(isinstance(lk, dict) and lk == {c: i for i, c in enumerate(a)} and it.get("pycoin.encoding.b58", "BASE58_BASE") == 58, "base58-lookup", B58 + ":1", "BASE58_LOOKUP / BASE58_BASE are not derived from the alphabet")
+    ctx.check(isinstance(lk, dict) and lk == {c: i for i, c in enumerate(a)} and it.get("pycoin.encoding.b58", "BASE58_BASE") == 58, "base58-lookup", B58 + ":1", "BASE58_LOOKUP / BASE58_BASE are not derived from the alphabet (BASE58_LOOKUP is %s)" % (repr(lk)[:80],))
     cs = it.get("pycoin.contrib.bech32m", "CHARSET")
     ctx.check(cs == "qpzry9x8gf2tvdw0s3jn54khce6mua7l", "bech32-charset", BECH + ":1", "CHARSET is %r" % (cs,), sample={"charset": cs})
-    ctx.check(it.get("pycoin.contrib.bech32m", "BECH32M_CONST") == 0x2BC830A3, "bech32m-const", BECH + ":1", "BECH32M_CONST is wrong")
+    ctx.check(it.get("pycoin.contrib.bech32m", "BECH32M_CONST") == 0x2BC830A3, "bech32m-const", BECH + ":1", "BECH32M_CONST is %r, not 0x2bc830a3" % (it.get("pycoin.contrib.bech32m", "BECH32M_CONST"),))
     for fn in ("bech32_polymod", "bech32_verify_checksum", "bech32_create_checksum", "bech32_hrp_expand", "bech32_encode"):
         _refcheck(ctx, BECH, fn, "bm_" + fn.replace("bech32_", "") if fn != "bech32_encode" else "bm_bech32_encode", "bech32:%s" % fn)
     e = it.get("pycoin.contrib.bech32m", "Encoding")
-    ctx.check(it.getattr(e, "BECH32") != it.getattr(e, "BECH32M"), "encoding-enum", BECH + ":1", "Encoding.BECH32 and BECH32M are not distinct")
+    ctx.check(it.getattr(e, "BECH32") != it.getattr(e, "BECH32M"), "encoding-enum", BECH + ":1", "Encoding.BECH32 and BECH32M are not distinct (%r, %r)" % (it.getattr(e, "BECH32"), it.getattr(e, "BECH32M")))
 
 
 _REF = None
